@@ -155,6 +155,7 @@ def _execute(mod: Any, plan: dict[str, Any]) -> dict[str, Any]:
         # application changed the setting AFTER it had loaded the chart it now queries)
         import decimal
 
+        decimal.getcontext()  # this thread's context exists (default precision) before the change
         decimal.DefaultContext.prec = 5
         decimal.DefaultContext.rounding = decimal.ROUND_DOWN
         if mod.PROP != "C11":
